@@ -7,6 +7,35 @@ Pure Python, stdlib only.
 Entry point: parse_stream(packets, strict=False) -> Stream
 Each packet is one temporal unit in low-overhead ("Section 5") OBU format.
 Tile data is not decoded; tile group headers and tile size fields are.
+
+Result objects
+  Stream      .packets [PacketInfo], .sequence_header (last active), .all_frame_headers,
+              .errors / .warnings / .notes as [(packet_index, text)], .shown_frames
+  PacketInfo  .index .size .obus [Obu] .frame_headers (no redundant copies) .sequence_headers
+              .shown_frames .tile_group_obus (OBU_FRAME + OBU_TILE_GROUP) .has_temporal_delimiter
+              .metadata_obus, and three message lists:
+                errors   - framing / syntax problems (the stream is not parsable as written)
+                warnings - bitstream conformance requirements that do not stop parsing
+                           (reference to an invalid slot, frame id mismatch, ...)
+                notes    - legal but unusual encodings (zero bytes after trailing bits, long leb128)
+  Obu         .type .type_name .has_extension .has_size_field .temporal_id .spatial_id .offset
+              .header_len .size .payload .parsed .frame_header (owning FrameHeader) .frame_end .dropped
+  SequenceHeader  every syntax element of sequence_header_obu() by its spec name (+ bit_depth,
+              order_hint_bits, NumPlanes, operating_points [dict], .raw payload bytes)
+  FrameHeader every syntax element / derived variable of uncompressed_header() (see __init__ for the
+              defaults used when an element is not coded), tile_groups [dict: tg_start, tg_end,
+              tile_start_and_end_present_flag, tile_sizes, header_bytes, ok], header_bits,
+              header_bytes, obu_type (3/6), temporal_unit, is_shown, display_frame_type, complete,
+              redundant_copies, bitpos {name: bit offset}, short_signaling_equiv.
+              For show_existing_frame=1 the values made available by the frame loading process
+              (size, order_hint, film grain params, gm_params, ...) are filled in from the shown slot.
+
+Reference state is updated when the last tile group of a frame has been seen (tg_end == NumTiles-1),
+immediately for show_existing_frame (with the refresh-all step when a KEY_FRAME is shown).  A frame left
+incomplete by the next temporal delimiter is reported and then committed anyway.
+
+Not supported: large_scale_tile streams (OBU_TILE_LIST / ext-tile tile size syntax), operating point
+selection other than 0, Annex B length-delimited format.
 """
 
 __all__ = ["ParseError", "Obu", "SequenceHeader", "FrameHeader", "PacketInfo", "Stream",
@@ -334,6 +363,21 @@ class FrameHeader:
         self.subsampling_y = 1
         for k, v in _reset_grain().items():
             d[k] = v
+
+    # spec-style aliases
+    FrameWidth = property(lambda self: self.frame_width)
+    FrameHeight = property(lambda self: self.frame_height)
+    UpscaledWidth = property(lambda self: self.upscaled_width)
+    RenderWidth = property(lambda self: self.render_width)
+    RenderHeight = property(lambda self: self.render_height)
+    SuperresDenom = property(lambda self: self.superres_denom)
+    CdefDamping = property(lambda self: self.cdef_damping)
+    TileSizeBytes = property(lambda self: self.tile_size_bytes)
+    OrderHint = property(lambda self: self.order_hint)
+    FrameRestorationType = property(lambda self: self.lr_type)
+    loop_filter_ref_deltas = property(lambda self: self.ref_deltas)
+    loop_filter_mode_deltas = property(lambda self: self.mode_deltas)
+    NumTiles = property(lambda self: self.TileCols * self.TileRows)
 
     @property
     def frame_type_name(self):
@@ -996,6 +1040,9 @@ class _Parser:
         fh.frame_width = (fh.upscaled_width * SUPERRES_NUM + (fh.superres_denom // 2)) // fh.superres_denom
 
     def compute_image_size(self, fh):
+        if fh.frame_width <= 0 or fh.frame_height <= 0:
+            raise ParseError("frame size %dx%d (taken from a reference slot that was never written)"
+                             % (fh.frame_width, fh.frame_height))
         fh.MiCols = 2 * ((fh.frame_width + 7) >> 3)
         fh.MiRows = 2 * ((fh.frame_height + 7) >> 3)
 
@@ -1204,7 +1251,6 @@ class _Parser:
         else:
             fh.context_update_tile_id = 0
             fh.tile_size_bytes = 0
-        fh.TileSizeBytes = fh.tile_size_bytes
 
     # ---- 5.9.12 quantization_params
     def read_delta_q(self, r):
@@ -1862,6 +1908,13 @@ class _Parser:
                     if self.strict:
                         raise
                     pkt.errors.append("%s at offset %d: %s" % (obu.type_name, pos, ex))
+                except (IndexError, KeyError, ValueError, ZeroDivisionError, OverflowError, TypeError) as ex:
+                    # corrupt state reached through a damaged header: report, never crash
+                    self.cur = None
+                    self.seen_frame_header = 0
+                    if self.strict:
+                        raise ParseError("packet %d: %s at offset %d: %r" % (pkt.index, obu.type_name, pos, ex))
+                    pkt.errors.append("%s at offset %d: unparsable (%r)" % (obu.type_name, pos, ex))
             pos += hl + size
         return pkt
 
